@@ -367,8 +367,24 @@ impl std::fmt::Display for TulispValue {
             TulispValue::Symbol { value } => f.write_str(&value.name),
             TulispValue::LexicalBinding { value, .. } => f.write_str(&value.name),
             TulispValue::Int { value, .. } => f.write_fmt(format_args!("{}", value)),
-            TulispValue::Float { value, .. } => f.write_fmt(format_args!("{}", value)),
-            TulispValue::String { value, .. } => f.write_fmt(format_args!(r#""{}""#, value)),
+            TulispValue::Float { value, .. } => {
+                let repr = value.to_string();
+                if value.is_finite() && !repr.contains('.') {
+                    f.write_fmt(format_args!("{}.0", repr))
+                } else {
+                    f.write_str(&repr)
+                }
+            }
+            TulispValue::String { value, .. } => {
+                f.write_char('"')?;
+                for ch in value.chars() {
+                    if ch == '"' || ch == '\\' {
+                        f.write_char('\\')?;
+                    }
+                    f.write_char(ch)?;
+                }
+                f.write_char('"')
+            }
             vv @ TulispValue::List { .. } => {
                 fmt_list(vv.clone().into_ref(None), f).unwrap_or(());
                 Ok(())
